@@ -56,6 +56,9 @@ def texprs(draw, earlier, depth=2):
     if k == 'list':
         return ['list', draw(texprs(earlier, depth - 1))]
     if k == 'dict':
+        strlikes = [c['name'] for c in earlier if c['kind'] in ('ustr', 'ystr')]
+        if strlikes and draw(st.integers(0, 2)) == 0:
+            return ['dictk', draw(st.sampled_from(strlikes)), draw(texprs(earlier, depth - 1))]
         return ['dict', draw(texprs(earlier, depth - 1))]
     if k == 'union':
         overl = [c for c in earlier if c['kind'] in ('enum', 'ustr', 'ystr')]
@@ -125,6 +128,8 @@ def class_specs(draw, name, earlier, allow_hooks=True):
         params.append({'n': n, 't': t, 'd': d})
     c['params'] = params
     c['extra'] = draw(st.integers(0, 5)) == 0
+    if kind == 'regular' and not c['base'] and not c['extra'] and draw(st.integers(0, 4)) == 0:
+        c['dc'] = True      # written as a @dataclass
     dparams = [q for q in params if q['d'] is not None and isinstance(q['t'], str)]
     if dparams and draw(st.integers(0, 2)) == 0:
         # the documented way to override a default for dumping
@@ -186,6 +191,8 @@ def _mentions_class(t):
         return False
     if t[0] == 'cls':
         return True
+    if t[0] == 'dictk':
+        return _mentions_class(t[2])
     return any(_mentions_class(x) for x in t[1:])
 
 
@@ -250,6 +257,11 @@ def values(draw, spec, t, depth=2):
         n = draw(st.integers(0, 3 if depth > 0 else 1))
         keys = draw(st.permutations(['k1', 'k2', 'key three', 'é', 'z9']))[:n]
         return {'k': 'dict', 'v': [[key, draw(values(spec, t[1], depth - 1))] for key in keys]}
+    if k == 'dictk':
+        n = draw(st.integers(0, 3 if depth > 0 else 1))
+        keys = draw(st.permutations(['ka', 'kb', 'key three', 'é', 'z9']))[:n]
+        return {'k': 'dict', 'v': [[{'k': 'ustr', 'c': t[1], 'v': key},
+                                    draw(values(spec, t[2], depth - 1))] for key in keys]}
     if k == 'union':
         m = draw(st.sampled_from(t[1:]))
         return draw(values(spec, m, depth))
@@ -460,4 +472,7 @@ def uses_only_registered(spec, t):
         return True
     if t[0] == 'cls':
         return U.class_by_name(spec, t[1]).get('registered', True)
+    if t[0] == 'dictk':
+        return (U.class_by_name(spec, t[1]).get('registered', True)
+                and uses_only_registered(spec, t[2]))
     return all(uses_only_registered(spec, x) for x in t[1:])
